@@ -131,6 +131,9 @@ SHAPES = [
     ("markup_escaped", ["{i}raise make()  # \\</info>"], 0),
     ("markup_badcolor", ['{i}tag = "<fg=nope>"', "{i}raise make(tag)"], 1),
     ("latin1", ["{i}raise make('é')"], 0),
+    # a non-final frame whose line is the first line of a multi-line call (does not tokenize on its own) and carries markup
+    ("open_paren_markup", ["{i}helper.call(  # <b></info>", "{i}    helper.boom, make", "{i})"], 0),
+    ("open_paren_close_tag", ["{i}helper.call(  # x </info> y", "{i}    helper.boom, make", "{i})"], 0),
 ]
 SHAPE = {s[0]: s for s in SHAPES}
 
@@ -409,10 +412,11 @@ def parse(plain):
 _INFO = {}
 
 
-def check_render(env, case, exc, verb, utf8, ignore, ansi, simple):
+def check_render(env, case, exc, verb, utf8, ignore, ansi, simple, keep_caches=False, minimal=False):
     from clikit.ui.components.exception_trace import ExceptionTrace
 
-    _trace.clear_trace_caches()
+    if not keep_caches:
+        _trace.clear_trace_caches()
     io = make_io(verb, utf8, ansi)
     trace = ExceptionTrace(exc)
     pattern = {"none": None, "lib": "^" + re.escape(env.lib + os.sep), "nothing": "^/nonexistent-dir/"}[ignore]
@@ -439,6 +443,8 @@ def check_render(env, case, exc, verb, utf8, ignore, ansi, simple):
         return None
     if type(exc).__name__ not in plain:
         return bad("name-missing", "class name %s not in the rendered text" % type(exc).__name__, type(exc).__name__, plain[:400])
+    if minimal:
+        return None
     listing, current = parse(plain)
     debug = verb == "-vvv"
 
@@ -594,6 +600,8 @@ def cases(env, tier):
     for which in ("exec", "gone"):
         for verb, utf8, ignore, ansi in itertools.product(VERB, (True, False), IGNORE, (False, True)):
             yield ["nosrc", which, verb, utf8, ignore, ansi]
+    for verb1, verb2, utf8, ansi, recreate in itertools.product(VERB, VERB, (True, False), (False, True), (False, True)):
+        yield ["vanish", verb1, verb2, utf8, ansi, recreate]
     for depth, explicit in itertools.product((1, 2, 3), (True, False)):
         for verb, utf8, ignore, ansi in itertools.product(VERB, (True, False), IGNORE, (False, True)):
             yield ["chain", explicit, depth, verb, utf8, ignore, ansi]
@@ -606,8 +614,55 @@ def cases(env, tier):
                 yield ["msg", cname, msg, simple, verb, utf8, ansi]
 
 
+VANISH_SRC = """def outer(make):
+    return inner(make)
+
+
+def inner(make):
+    raise make()
+"""
+
+
+def run_vanish(env, case):
+    """A source file that disappears between two renders: the module is loaded, an error from it is
+    rendered (which fills whatever caches the renderer keeps), the file is removed, and a second error
+    from the still-loaded code is rendered WITHOUT clearing any cache in between.  Both renders are
+    judged by the ordinary oracle; the file's text stays known to the oracle (env.files)."""
+    _, verb1, verb2, utf8, ansi, recreate = case
+    path = os.path.join(env.app, "vanish_%d.py" % os.getpid())
+    g = env.load(path, VANISH_SRC.encode())
+    try:
+        def fail():
+            try:
+                env.helper["call"](g["outer"], lambda: ValueError("x"))
+            except Exception as e:
+                return own_frames_removed(e)
+        v = check_render(env, case, fail(), verb1, True, "none", ansi, False)
+        if v:
+            return v
+        os.unlink(path)
+        if recreate:
+            with open(path, "wb") as f:  # an edited file: same code object is still running
+                f.write(VANISH_SRC.encode())
+        if not recreate:
+            # the source is unavailable now: only "renders, names the class, shows the message" is demanded
+            env.files.pop(path, None)
+            _INFO.pop(path, None)
+        v = check_render(env, case, fail(), verb2, utf8, "none", ansi, False, keep_caches=True, minimal=not recreate)
+        if v:
+            v["sig"] = "vanish:" + v["sig"]
+        return v
+    finally:
+        if os.path.exists(path):
+            os.unlink(path)
+        env.files.pop(path, None)
+        _INFO.pop(path, None)
+
+
 def run_case(env, case):
     kind = case[0]
+    if kind == "vanish":
+        return run_vanish(env, case)
     if kind == "hl":
         v = check_highlighter(case[1])
         return None if v == "skipped" else v
